@@ -52,10 +52,9 @@ class CSSCharsetRule(cssrule.CSSRule):
         super().__init__(parentRule=parentRule, parentStyleSheet=parentStyleSheet)
         self._atkeyword = '@charset'
 
+        self._encoding = None
         if encoding:
             self.encoding = encoding
-        else:
-            self._encoding = None
 
         self._readonly = readonly
 
@@ -153,10 +152,14 @@ class CSSCharsetRule(cssrule.CSSRule):
             )
         else:
             try:
-                # "css" is the codec which reads this rule, not an encoding
-                if codecs.lookup(encoding).name == 'css':
+                # "css" is the codec which reads this rule, not an encoding;
+                # a sheet can only be written in a text encoding which works
+                # with the error handler of the serializer
+                info = codecs.lookup(encoding)
+                if info.name == 'css' or not getattr(info, '_is_text_encoding', True):
                     raise LookupError()
-            except LookupError:
+                'a'.encode(encoding, 'escapecss')
+            except (LookupError, UnicodeError):
                 self._log.error(
                     'CSSCharsetRule: Unknown (Python) encoding %r.' % encoding
                 )
